@@ -1,5 +1,6 @@
 """C10 tail drop and conservation — byte account, exact form of the drop
 guard, droppable types, exactly-once handling per hop, no hop alters a packet."""
+import simlib
 import q, engines, handlers
 from simlib import is_node, strip_targs, walk
 
@@ -15,13 +16,14 @@ MEASURE = ({'p.buffer.size()': 1, 'p.overhead': 1}, 0)
 DROPPABLE = {'syn': True, 'payload': True, 'syn_ack': False, 'ack': False, 'error': False, 'uninitialized': None}
 
 
-def check(run):
+def byte_account_rule(run):
+    """R9 the hop's byte account: += measure with the enqueue, -= the SAME measure with the dequeue, closed writer set.
+    Shared with C06: an account that drifts upwards makes a finite queue drop everything, and the transfer stalls."""
     fx = run.fx
     ip = fx.fn1(Q + '::incoming_packet')
     ns = fx.fn1(Q + '::next_packet_sent')
     run.touch(ip); run.touch(ns)
     sub_ip, sub_ns = q.const_local_subst(ip), q.const_local_subst(ns)
-
     run.clause('R9 byte account: += measure in the enqueue block, -= the same measure in the dequeue block, no other writer')
     engines.r2_writer_table(run, Q + '::m_queue_size', {Q + '::queue': 'constructor', ip.norm: 'enqueue', ns.norm: 'dequeue'}, required=[ip.norm, ns.norm])
     enq = [c for op, c in q.container_calls(ip, 'm_queue', {'push_back'})]
@@ -40,6 +42,17 @@ def check(run):
     # the measured element is the one moved: p is the front packet
     pk = [v for nn in ns.all_nodes() if nn['k'] == 'decl' for v in nn['vars'] if 'packet' in ns.types[v['t']] and v.get('init') is not None]
     run.check(len(pk) == 1 and 'm_queue.front().pkt' in q.render(ns, pk[0].get('init')), 'R9', 'dequeue-element', ns.norm, ns.loc(), 'the measured packet is not the dequeued front packet', 'measures the dequeued packet')
+    return enq, deq
+
+
+def check(run):
+    fx = run.fx
+    ip = fx.fn1(Q + '::incoming_packet')
+    ns = fx.fn1(Q + '::next_packet_sent')
+    run.touch(ip); run.touch(ns)
+    sub_ip, sub_ns = q.const_local_subst(ip), q.const_local_subst(ns)
+
+    enq, deq = byte_account_rule(run)
 
     run.clause('drop guard has exactly the stated form: ok_to_drop(p) && m_max_queue_size > 0 && m_queue_size + measure(p) > m_max_queue_size')
     drops = [f for f in handlers.flows_in(fx, ip) if f.kind == 'invoke' and 'drop_fun' in f.entity]
@@ -143,6 +156,9 @@ def check(run):
                       'hop %s writes packet field %s (%s): packets must cross a hop unaltered' % (f.norm, a.field.split('::')[-1], a.kind + (':' + a.method if a.method else '')), 'tabled effect')
     if nw < 3:
         run.broke('fewer than 3 packet-field writes found in the sinks (3 confirmed by hand)')
+    run.clause('R1 no closure, handler or packet field is filled by std::move of an object that a later iteration of the same loop moves again (moved-from reuse: only the first segment would carry its drop callback / only the first completion its handler)')
+    nmv = engines.moved_in_loop(run, [f_ for f_ in fx.repo_functions() if f_.file.startswith(simlib.REPO_PREFIX + 'src/')])
+    run.ok('R1', 'moved-from-in-loop', 'scan', '', 'std::move sites inside loops examined: %d' % nmv, nontrivial=False)
     run.floor('R9', 2)
     run.floor('R5', 4)
 
